@@ -823,4 +823,70 @@ Proof.
   exists hcs. auto.
 Qed.
 
+(* ... and a connection that is parked with a reply stream has had every frame up to the streaming
+   call handled, and every event queued for its stream delivered *)
+Theorem connection_view_parked E s0 s T :
+  clean P c E -> input_of P false c E = wire fs ->
+  exec P (E ++ [Poll]) (init_sv P s0) = (s, T) -> stat s = Running ->
+  In c (map skx (streams s)) ->
+  exists done rest hcs h,
+    fs = done ++ rest /\ hcs_ok (hcs ++ [h]) done /\ Forall (complete P) hcs /\
+    h_ans h = AMulti /\ oneway P (h_cl h) = false /\ h_ended h = false /\
+    pop_key P (skey P (h_cl h)) (squeue s) = None /\
+    viewc T = TAccept c :: flat_map chunkc (hcs ++ [h]).
+Proof.
+  intros Hc Hin He Hst Hcin.
+  rewrite exec_app in He. destruct (exec P E (init_sv P s0)) as [s1 T1] eqn:E1.
+  pose proof (ginv_exec E _ [] _ _ (ginv_init s0 E Hc Hin) E1) as G1. cbn [app] in G1.
+  cbn [exec step_env] in He.
+  destruct (stat s1) eqn:Es1.
+  2-4: inversion He; subst; congruence.
+  unfold poll_server in He. destruct (poll_loop P (S (measure P s1)) s1) as [[r s2] t2] eqn:El.
+  inversion He; subst s T. cbn [stat set_stat] in Hst. subst r. rewrite app_nil_r.
+  destruct (ginv_poll_loop _ _ _ _ _ _ _ G1 El) as (G2 & _ & _ & Hq).
+  destruct (Hq eq_refl) as (_ & Hqs & _).
+  cbn [streams set_stat] in Hcin. apply in_map_iff in Hcin. destruct Hcin as ([key x] & Hcx & Hx).
+  pose proof (g_streams _ _ _ G2) as Hstr. rewrite Forall_forall in Hstr.
+  destruct (Hstr _ Hx Hcx) as (_ & done & rest & hcs0 & H1 & H2 & H3 & hcs & h & -> & Hcomp & Ha & Ho & Hend & Hk & Hv).
+  exists done, rest, hcs, h. repeat split; auto.
+  cbn [squeue set_stat]. rewrite <- Hk. eapply Hqs; eauto.
+Qed.
+
+(* when the executor has polled, nothing is left in the listener queue *)
+Lemma quiescent_accq E s0 s T :
+  clean P c E -> input_of P false c E = wire fs ->
+  exec P (E ++ [Poll]) (init_sv P s0) = (s, T) -> stat s = Running -> accq s = [].
+Proof.
+  intros Hc Hin He Hst.
+  rewrite exec_app in He. destruct (exec P E (init_sv P s0)) as [s1 T1] eqn:E1.
+  pose proof (ginv_exec E _ [] _ _ (ginv_init s0 E Hc Hin) E1) as G1. cbn [app] in G1.
+  cbn [exec step_env] in He.
+  destruct (stat s1) eqn:Es1.
+  2-4: inversion He; subst; congruence.
+  unfold poll_server in He. destruct (poll_loop P (S (measure P s1)) s1) as [[r s2] t2] eqn:El.
+  inversion He; subst s T. cbn [stat set_stat] in Hst. subst r.
+  destruct (ginv_poll_loop _ _ _ _ _ _ _ G1 El) as (G2 & _ & _ & Hq).
+  destruct (Hq eq_refl) as (_ & _ & Ha). exact Ha.
+Qed.
+
+(* the connection exists iff it was announced; then it is in exactly one of the three lists *)
+Lemma connection_somewhere E s0 s T :
+  clean P c E -> input_of P false c E = wire fs ->
+  exec P E (init_sv P s0) = (s, T) ->
+  (In c (known s) -> 0 < cnt cid c (acc_conns (accq s)) \/ In c (map cid (conns s)) \/ In c (map skx (streams s))) /\
+  (~ In c (known s) -> viewc T = []).
+Proof.
+  intros Hc Hin He.
+  pose proof (ginv_exec E _ [] _ _ (ginv_init s0 E Hc Hin) He) as G. cbn [app] in G.
+  split.
+  - intros Hk. pose proof (g_live _ _ _ G Hk) as H1. unfold occ in H1.
+    destruct (Nat.eq_dec (cnt cid c (acc_conns (accq s))) 0) as [Z1|Z1]; [|left; lia].
+    destruct (Nat.eq_dec (cnt cid c (conns s)) 0) as [Z2|Z2].
+    + right. right. destruct (cnt_pos_in skx c (streams s)) as (kx & Hi & Hn); [lia|].
+      apply in_map_iff. eauto.
+    + right. left. destruct (cnt_pos_in cid c (conns s)) as (x & Hi & Hn); [lia|].
+      apply in_map_iff. eauto.
+  - intros Hk. exact (proj1 (g_new _ _ _ G Hk)).
+Qed.
+
 End Inv.
